@@ -267,7 +267,8 @@ impl Report {
     /// Record a violation. `signature` identifies the *class* of failure exactly (call
     /// site / instruction / aspect) — it is what known findings are keyed on.
     pub fn violation(&mut self, signature: impl Into<String>, witness: impl FnOnce() -> Value) {
-        let signature = signature.into();
+        // signatures are single tokens (they appear in `VIOLATION ... signature=<sig>` lines)
+        let signature: String = signature.into().replace(char::is_whitespace, "_");
         if let Some(v) = self.violations.get_mut(&signature) {
             v.count += 1;
         } else {
